@@ -10,6 +10,7 @@ import (
 	"pgregory.net/rapid"
 
 	"verif/harness/engine"
+	"verif/harness/gen"
 	"verif/harness/oracle"
 	"verif/harness/ref/refrpc"
 	"verif/harness/sim"
@@ -117,50 +118,6 @@ func describe(exp refrpc.Record) (labels []string, nontrivial bool) {
 	return
 }
 
-// ---- the exhaustive field-variant product -----------------------------------
-
-var (
-	vJSONRPC = []string{"", `"2.0"`, `"2.0"`, `"1.0"`, `2.0`, `null`, `[]`}
-	vID      = []string{"", `null`, `0`, `-0`, `1.5`, `1e3`, `"s"`, `""`, `"1"`, `true`, `[]`, `{}`}
-	vMethod  = []string{"", `"ret"`, `"nope"`, `"rpc.serverInfo"`, `"rpc.x"`, `""`, `null`, `7`, `[false]`}
-	vParams  = []string{"", `null`, `[]`, `{}`, `[1]`, `"s"`, `5`, `true`}
-	vExtra   = []string{"", `"x":1`, `"result":1`, `"error":{"code":1,"message":"m"}`, `"error":5`}
-)
-
-func member(a, b, c, d, e int) string {
-	var parts []string
-	if vJSONRPC[a] != "" {
-		parts = append(parts, `"jsonrpc":`+vJSONRPC[a])
-	}
-	if vID[b] != "" {
-		parts = append(parts, `"id":`+vID[b])
-	}
-	if vMethod[c] != "" {
-		parts = append(parts, `"method":`+vMethod[c])
-	}
-	if vParams[d] != "" {
-		parts = append(parts, `"params":`+vParams[d])
-	}
-	if vExtra[e] != "" {
-		parts = append(parts, vExtra[e])
-	}
-	return "{" + strings.Join(parts, ",") + "}"
-}
-
-func productSize() int { return len(vJSONRPC) * len(vID) * len(vMethod) * len(vParams) * len(vExtra) }
-
-func nthMember(n int) string {
-	e := n % len(vExtra)
-	n /= len(vExtra)
-	d := n % len(vParams)
-	n /= len(vParams)
-	c := n % len(vMethod)
-	n /= len(vMethod)
-	b := n % len(vID)
-	n /= len(vID)
-	return member(n%len(vJSONRPC), b, c, d, e)
-}
-
 const groupSize = 48
 
 // enumProduct: every member of the product as a single record; configurations
@@ -172,14 +129,14 @@ func enumProduct(env engine.Env, yield func(Case) bool) {
 	}
 	g := 0
 	for ci, cf := range cfgs {
-		for start := 0; start < productSize(); start += groupSize {
+		for start := 0; start < gen.ProductSize(); start += groupSize {
 			g++
 			if !env.Mine(g) {
 				continue
 			}
 			c := Case{AllowPush: cf[0], DisableBuiltin: cf[1], Salt: uint64(env.Seed)*1000 + uint64(ci)}
-			for n := start; n < start+groupSize && n < productSize(); n++ {
-				c.Records = append(c.Records, engine.Bytes(nthMember(n)))
+			for n := start; n < start+groupSize && n < gen.ProductSize(); n++ {
+				c.Records = append(c.Records, engine.Bytes(gen.NthMember(n)))
 			}
 			if !yield(c) {
 				return
@@ -199,7 +156,7 @@ func genBatch(t *rapid.T) Case {
 			if rapid.IntRange(0, 9).Draw(t, "odd") == 0 {
 				ms = append(ms, rapid.SampledFrom([]string{`1`, `"x"`, `null`, `[]`, `[{}]`, `true`, `{}`}).Draw(t, "nonobj"))
 			} else {
-				ms = append(ms, nthMember(rapid.IntRange(0, productSize()-1).Draw(t, "m")))
+				ms = append(ms, gen.NthMember(rapid.IntRange(0, gen.ProductSize()-1).Draw(t, "m")))
 			}
 		}
 		ws := rapid.SampledFrom([]string{"", " ", "\n", "\r\n\t "}).Draw(t, "ws")
@@ -213,115 +170,9 @@ func genRandom(t *rapid.T) Case {
 	c := Case{AllowPush: rapid.Bool().Draw(t, "push"), DisableBuiltin: rapid.Bool().Draw(t, "nobuiltin"), Salt: rapid.Uint64().Draw(t, "salt")}
 	n := rapid.IntRange(1, 10).Draw(t, "nrec")
 	for i := 0; i < n; i++ {
-		c.Records = append(c.Records, engine.Bytes(genRecord(t)))
+		c.Records = append(c.Records, engine.Bytes(gen.InboundRecord(t)))
 	}
 	return c
-}
-
-var seeds = []string{
-	`{"jsonrpc":"2.0","id":1,"method":"ret","params":{"k":1}}`,
-	`{"jsonrpc":"2.0","method":"ret","params":[5]}`,
-	`[{"jsonrpc":"2.0","id":"a","method":"ret"},{"jsonrpc":"2.0","method":"nope"}]`,
-	`{"jsonrpc":"2.0","id":7,"result":{"x":[1,2,3]}}`,
-	`{"jsonrpc":"2.0","id":null,"method":"svc.ret","params":null}`,
-	`{"jsonrpc":"2.0","id":3,"error":{"code":-32000,"message":"boom","data":[1]}}`,
-	`{"jsonrpc":"2.0","id":12345678901234567890,"method":"rpc.serverInfo"}`,
-	`{"jsonrpc":"2.0","id":1e400,"method":"err","params":{"k":2,"c":-5}}`,
-	`[]`, `[[]]`, `[1,2]`, ``, ` `, `{`, `{"jsonrpc":"2.0","id":1,"method":"ret"`, `nul`, `"str"`,
-}
-
-func genValue(t *rapid.T, depth int) string {
-	switch rapid.IntRange(0, 9).Draw(t, "vk") {
-	case 0:
-		return "null"
-	case 1:
-		return rapid.SampledFrom([]string{"true", "false"}).Draw(t, "b")
-	case 2:
-		return rapid.SampledFrom([]string{"0", "-0", "1", "-1", "1.5", "1e3", "1E-2", "12345678901234567890", "1e999", "0.000000000000000000000000000001", "2147483648", "-2147483649"}).Draw(t, "n")
-	case 3, 4:
-		return genString(t)
-	case 5, 6:
-		if depth > 3 {
-			return "[]"
-		}
-		n := rapid.IntRange(0, 3).Draw(t, "alen")
-		var xs []string
-		for i := 0; i < n; i++ {
-			xs = append(xs, genValue(t, depth+1))
-		}
-		return "[" + strings.Join(xs, ",") + "]"
-	default:
-		if depth > 3 {
-			return "{}"
-		}
-		n := rapid.IntRange(0, 3).Draw(t, "olen")
-		var xs []string
-		for i := 0; i < n; i++ {
-			xs = append(xs, genString(t)+":"+genValue(t, depth+1))
-		}
-		return "{" + strings.Join(xs, ",") + "}"
-	}
-}
-
-func genString(t *rapid.T) string {
-	return rapid.SampledFrom([]string{`""`, `"a"`, `"2.0"`, `"ret"`, `"k"`, `"id"`, `"method"`, `"A"`, `"é"`, `"😀"`, `"\ud800"`, "\"\xff\"", `"a\nb"`, `"rpc.x"`, `"jsonrpc"`, `"code"`, `"Message"`}).Draw(t, "s")
-}
-
-func genRecord(t *rapid.T) string {
-	switch rapid.IntRange(0, 5).Draw(t, "rk") {
-	case 0: // grammar: an object with the protocol keys and near-valid values
-		var parts []string
-		keys := []string{"jsonrpc", "id", "method", "params", "result", "error", "x", "Method", "jsonrpc", "id"}
-		n := rapid.IntRange(0, 6).Draw(t, "nkeys")
-		for i := 0; i < n; i++ {
-			k := rapid.SampledFrom(keys).Draw(t, "key")
-			var v string
-			switch {
-			case k == "jsonrpc" && rapid.IntRange(0, 3).Draw(t, "okv") != 0:
-				v = `"2.0"`
-			case k == "method" && rapid.IntRange(0, 3).Draw(t, "okm") != 0:
-				v = rapid.SampledFrom([]string{`"ret"`, `"nope"`, `"svc.ret"`, `"rpc.serverInfo"`, `"rpc.user"`, `"err"`, `"ret"`}).Draw(t, "mv")
-			case k == "id" && rapid.IntRange(0, 3).Draw(t, "oki") != 0:
-				v = rapid.SampledFrom([]string{`1`, `"a"`, `2.5`, `-7`, `null`, `1e2`, `"1"`}).Draw(t, "iv")
-			case k == "error" && rapid.IntRange(0, 2).Draw(t, "oke") != 0:
-				v = rapid.SampledFrom([]string{`{"code":1,"message":"m"}`, `{"code":1.5,"message":"m"}`, `{"code":1}`, `{"message":"m"}`, `{"code":1,"message":"m","data":null}`, `{"Code":1,"message":"m"}`, `{"code":1,"message":"m","x":1}`, `{"code":99999999999,"message":"m"}`, `{"code":"1","message":"m"}`, `{"code":1,"message":2}`}).Draw(t, "ev")
-			default:
-				v = genValue(t, 0)
-			}
-			ws := rapid.SampledFrom([]string{"", "", " ", "\n"}).Draw(t, "ws")
-			parts = append(parts, ws+`"`+k+`"`+ws+":"+ws+v)
-		}
-		return "{" + strings.Join(parts, ",") + "}"
-	case 1: // array of such
-		n := rapid.IntRange(0, 3).Draw(t, "blen")
-		var xs []string
-		for i := 0; i < n; i++ {
-			xs = append(xs, genRecord(t))
-		}
-		return rapid.SampledFrom([]string{"", " ", "\n\t"}).Draw(t, "lead") + "[" + strings.Join(xs, ",") + "]"
-	case 2: // arbitrary JSON value
-		return genValue(t, 0)
-	case 3, 4: // byte mutation of a seed
-		s := []byte(rapid.SampledFrom(seeds).Draw(t, "seed"))
-		nm := rapid.IntRange(1, 3).Draw(t, "nmut")
-		for i := 0; i < nm && len(s) > 0; i++ {
-			p := rapid.IntRange(0, len(s)-1).Draw(t, "pos")
-			switch rapid.IntRange(0, 3).Draw(t, "mk") {
-			case 0:
-				s = append(s[:p:p], s[p+1:]...)
-			case 1:
-				s[p] = rapid.SampledFrom([]byte(`{}[]",:0a \n`+"\x00\xff")).Draw(t, "byte")
-			case 2:
-				s = append(s[:p:p], append([]byte{rapid.SampledFrom([]byte(`{}[]",:0a \n`)).Draw(t, "ins")}, s[p:]...)...)
-			case 3:
-				s = s[:p]
-			}
-		}
-		return string(s)
-	default: // deep nesting / very long
-		d := rapid.SampledFrom([]int{50, 500, 3000}).Draw(t, "depth")
-		return `{"jsonrpc":"2.0","id":1,"method":"ret","params":` + strings.Repeat("[", d) + strings.Repeat("]", d) + `}`
-	}
 }
 
 const rule = "non-trivial = the record has at least one member that is not a plain valid call with a simple id (a defect, a notification, an exotic id, a non-object, a batch, a reply-shaped member or a top-level parse error / empty batch); distinct = (server flags, record bytes of the whole group)"
